@@ -31,8 +31,11 @@ from guppylang_internals.nodes import (
     DesugaredGeneratorExpr,
     ExitKind,
     GlobalCall,
+    GlobalName,
     MakeIter,
     PanicExpr,
+    PlaceNode,
+    TupleAccessAndDrop,
 )
 from guppylang_internals.tys.arg import ConstArg, TypeArg
 from guppylang_internals.tys.builtin import (
@@ -55,6 +58,7 @@ from guppylang_internals.tys.ty import (
     FunctionType,
     InputFlags,
     NoneType,
+    TupleType,
     Type,
     unify,
 )
@@ -138,7 +142,14 @@ class CallableChecker(CustomCallChecker):
             or self.ctx.globals.get_instance_func(ty, "__call__") is not None
         )
         const = with_loc(self.node, ast.Constant(value=is_callable))
-        return const, bool_type()
+        if isinstance(arg, PlaceNode | GlobalName):
+            return const, bool_type()
+        # The argument is an arbitrary expression that still has to be evaluated, so we
+        # return the second component of the tuple `(arg, const)`
+        tuple_ty = TupleType([ty, bool_type()])
+        elts = [arg, with_type(bool_type(), const)]
+        pair = with_type(tuple_ty, with_loc(self.node, ast.Tuple(elts, ast.Load())))
+        return with_loc(self.node, TupleAccessAndDrop(pair, tuple_ty, 1)), bool_type()
 
 
 class ArrayCopyChecker(CustomCallChecker):
